@@ -20,6 +20,7 @@
 #include <dune/common/simd/loop.hh>
 #include <dune/common/simd/simd.hh>
 #include <dune/common/math.hh>
+#include "traits.hh"
 
 #ifndef C09_NESTED_SV_LOGIC
 #define C09_NESTED_SV_LOGIC 0
@@ -74,6 +75,7 @@ static std::string run(const Tok& t)
   const std::string& form = t.at(5);
   const std::string& name = t.at(6);
   std::size_t pos = 7;
+  if (form == "traits") { if constexpr (simd) return c09_traits_line<V>(); else return "N/A"; }
   V a{}, b{}, c{}; T sa{}, sb{}; M m{}; int cnt = 0; bool sbool = false;
   const bool shift = (name == "shl" || name == "shr");
   if (form == "u" || form == "pre" || form == "post" || form == "hmax" || form == "hmin" || form == "lane" || form == "lanes"
